@@ -1,6 +1,7 @@
 //! pvh — correspondence harness: runs the real penne implementation on case
 //! files and prints one canonical line per case.
 mod exec;
+mod expand;
 mod front;
 mod ir;
 mod shape;
@@ -18,6 +19,7 @@ fn main()
 	match args[1].as_str()
 	{
 		"front" => front::stream(&args[2]),
+		"expand" => expand::stream(&args[2]),
 		"exec" => exec::stream(&args[2], true, false, false),
 		"exec-tools" => exec::stream(&args[2], true, true, false),
 		"tools" => exec::stream(&args[2], false, true, false),
